@@ -39,8 +39,7 @@ class Env:
     def fun(self, name, args):
         if self.ctx is not None:
             return self.ctx.ufun(name, args)
-        r = random.Random(hash((name, tuple(round(float(a), 12) for a in args))))
-        return r.uniform(-2, 2)
+        return real.ufun_witness(name, args)
 
 
 class PDF:
@@ -270,6 +269,13 @@ def replay_output(args):
 
 
 REPLAYERS = {"case": replay_case, "output": replay_output}
+
+
+def float_pairs_case(args):
+    return pairs_for(args["case"], Env(None, values=dict(args.get("values", {}))))
+
+
+REPLAYERS["case:pairs"] = float_pairs_case
 
 
 def run(chk, only=None):
